@@ -58,6 +58,9 @@ func (cr *concRun) analyse(out *ConcOutcome) {
 	if cr.opts.Lin {
 		cr.checkLin(out)
 	}
+	if cr.opts.Rounds {
+		cr.checkLinExp(out)
+	}
 	if Trace {
 		cr.dumpTimeline()
 	}
